@@ -194,12 +194,7 @@ def run_property(pid, tier="quick", seed=0, jobs=None, only=None, verbose=True):
         for t in tasks:
             results[t[2]] = _run_isolated(t)
     else:
-        ctx = mp.get_context("fork")
-        with ctx.Pool(min(jobs, len(tasks)), maxtasksperchild=1) as pool:
-            for r in pool.imap_unordered(_worker, tasks):
-                results[r["name"]] = r
-                if verbose and not r.get("ok"):
-                    print("  [engine] %s: %s" % (r["name"], r.get("error")), flush=True)
+        results.update(_run_tasks(tasks, min(jobs, len(tasks)), obs, verbose))
 
     t_pool = time.time() - t0
     # 3. triage
@@ -314,6 +309,61 @@ def run_property(pid, tier="quick", seed=0, jobs=None, only=None, verbose=True):
     if violations:
         return 1        # replay-confirmed on the uninstrumented code: stands regardless of harness problems elsewhere
     return 2 if harness_errors else 0
+
+
+def _child(conn, t):
+    try:
+        conn.send(_worker(t))
+    except BaseException as e:
+        try:
+            conn.send(dict(name=t[2], ok=False, error="worker failed: %r" % (e,), wall_s=0))
+        except Exception:
+            pass
+    finally:
+        conn.close()
+
+
+def _run_tasks(tasks, jobs, obs, verbose):
+    """one process per obligation with a hard wall-clock limit; a crashed or stuck worker is reported, never waited for forever"""
+    ctx = mp.get_context("fork")
+    limits = {o.name: o.deadline_s * 2 + 300 for o in obs}
+    pending = list(tasks)
+    running = {}
+    results = {}
+    while pending or running:
+        while pending and len(running) < jobs:
+            t = pending.pop(0)
+            pc, cc = ctx.Pipe(duplex=False)
+            p = ctx.Process(target=_child, args=(cc, t), daemon=True)
+            p.start()
+            cc.close()
+            running[t[2]] = (p, pc, time.time())
+        done = []
+        for name, (p, pc, t0) in running.items():
+            if pc.poll(0.02):
+                try:
+                    r = pc.recv()
+                except EOFError:
+                    r = dict(name=name, ok=False, error="worker died without a result (exit code %s)" % p.exitcode, wall_s=time.time() - t0)
+                results[name] = r
+                done.append(name)
+            elif not p.is_alive():
+                results[name] = dict(name=name, ok=False, error="worker died without a result (exit code %s)" % p.exitcode, wall_s=time.time() - t0)
+                done.append(name)
+            elif time.time() - t0 > limits.get(name, 1500):
+                p.kill()
+                results[name] = dict(name=name, ok=False, error="hard wall-clock limit exceeded; worker killed", wall_s=time.time() - t0)
+                done.append(name)
+        for name in done:
+            p, pc, _ = running.pop(name)
+            p.join(1)
+            pc.close()
+            r = results[name]
+            if verbose and not r.get("ok"):
+                print("  [engine] %s: %s" % (name, r.get("error")), flush=True)
+        if not done:
+            time.sleep(0.05)
+    return results
 
 
 def _run_isolated(t):
